@@ -107,6 +107,15 @@ Theorem C08_parameter_order_raw : forall s P x1 ps1 x2 ps2 fo lj,
 Proof. exact raw_order. Qed.
 Print Assumptions C08_parameter_order_raw.
 
+(* every text String() prints for such a URL lies in the domain on which
+   [parse_raw] models url.Parse (one leading slash, not two) *)
+Theorem C08_string_in_parse_domain : forall s path values fo u lj,
+  schema_hyg s -> new_url_from s path values fo = Ok u -> raw_in_domain (url_string u lj) = true.
+Proof.
+  intros s path values fo u lj Hy H. apply (url_string_in_domain s). exact (new_url_from_wf s path values fo u Hy H).
+Qed.
+Print Assumptions C08_string_in_parse_domain.
+
 (** the hygiene is needed: with an attribute called "-a" the second String()
     differs from the first *)
 Definition c08_odd_schema : schema := mkSchema [mkType "t" [("-a", mkAttr "-a" 1 false)] []].
